@@ -21,7 +21,31 @@ THOROUGH = [(range(1, 11), 10, 20), (range(1, 11), 9, 10), (range(1, 13), 8, 12)
 
 
 def bounds(tier):
-    return {"scopes": [f"values {min(a)}..{max(a)} ({len(a)} letters), 1..{n} items, binsize {b}" for a, n, b in (QUICK if tier == "quick" else THOROUGH)]}
+    return {"planted": "B in {12,20,39,18,13,50} with 6-8 letters each: every multiset of 3 patterns, " + ("every 5th multiset of 4 patterns" if tier == "quick" else "every multiset of 4 patterns, every 2nd / 7th of 5 patterns")
+                       + " (a pattern = a partition of B into <=4 letters; optimum = number of patterns), each also with one item reduced by one",
+            "scopes": [f"values {min(a)}..{max(a)} ({len(a)} letters), 1..{n} items, binsize {b}" for a, n, b in (QUICK if tier == "quick" else THOROUGH)]}
+
+
+PLANT = [(12, (2, 3, 4, 5, 6, 7)), (20, (3, 4, 5, 6, 7, 8, 9, 11)), (39, (4, 7, 11, 13, 15, 16, 17)), (18, (2, 3, 5, 6, 7, 9, 12)),
+         (13, (2, 3, 4, 5, 6, 7)), (50, (7, 11, 13, 16, 19, 23, 24, 27))]
+
+
+def _planted(tier):
+    """planted perfect packings (every multiset of m patterns, a pattern = a partition of B into <=4 letters: optimum m by
+    construction) and their one-unit-lighter variants (one item reduced by 1: total m*B-1, optimum still m)"""
+    q = tier == "quick"
+    for B, letters in PLANT:
+        for m in ((3, 4) if q else (3, 4, 5)):
+            step = 1 if (m == 3 or not q) else 5           # quick: every 5th four-pattern instance (enumeration order)
+            if m == 5: step = 7 if B in (20, 18) else 2
+            for idx, (items, _) in enumerate(spaces.planted(B, letters, m, maxparts=4)):
+                if idx % step:
+                    continue
+                yield items, B, m
+                for v in sorted(set(items)):
+                    if v > 1:
+                        lst = list(items); lst.remove(v); lst.append(v - 1)
+                        yield tuple(sorted(lst, reverse=True)), B, m
 
 
 def tasks(tier):
@@ -29,6 +53,8 @@ def tasks(tier):
     for alpha, N, B in (QUICK if tier == "quick" else THOROUGH):
         for ch in scopes.chunk_multisets(alpha, 1, N, 250):
             ts.append((f"B{B}", ch, B))
+    for ch in spaces.chunked(_planted(tier), 150):
+        ts.append(("planted", ch, None))
     return ts
 
 
@@ -40,7 +66,7 @@ def _count(obs, o):
     return len(r)
 
 
-def _one(acc, items, B):
+def _one(acc, items, B, known_opt=None):
     counts = {}
     for o in ("Partition", "Sums", "BinCount"):
         case = {"algo": "bc", "items": items, "B": B, "out": o}
@@ -54,9 +80,9 @@ def _one(acc, items, B):
             vals = obs[1]
             if sorted(v for b in vals for v in b) != sorted(items) or any(sum(b) > B for b in vals):
                 acc.violation("bc", cfg_str(case), inp_str(case), "infeasible", "a feasible packing of the items", vals, case)
-    opt = O.opt_pack(tuple(sorted(items, reverse=True)), B)
+    opt = known_opt if known_opt is not None else O.opt_pack(tuple(sorted(items, reverse=True)), B)
     acc.check()
-    base = {"algo": "bc", "items": items, "B": B}
+    base = {"algo": "bc", "items": items, "B": B, "known_opt": known_opt}
     for o, c in counts.items():
         case = dict(base, out=o)
         if c != opt:
@@ -68,6 +94,16 @@ def _one(acc, items, B):
 def run_task(task):
     scope, chunk, B = task
     acc = Acc(ID, scope)
+    if scope == "planted":
+        for items, Bp, m in chunk:
+            items = list(items)
+            bfd = repo.call({"algo": "bfd", "items": items, "B": Bp, "out": "BinCount"})[1]
+            acc.ran("bfd")
+            _one(acc, items, Bp, known_opt=m)
+            _one(acc, items[::-1], Bp, known_opt=m)
+            acc.point(nontrivial=(bfd != m))
+        acc.sample({"scope": scope, "items": list(chunk[0][0]), "binsize": chunk[0][1], "optimum (planted)": chunk[0][2]})
+        return acc
     for ms in chunk:
         items = list(ms)
         bfd = repo.call({"algo": "bfd", "items": items, "B": B, "out": "BinCount"})[1]
@@ -85,4 +121,4 @@ def run_task(task):
 
 
 def replay(case, acc):
-    _one(acc, case["items"], case["B"])
+    _one(acc, case["items"], case["B"], known_opt=case.get("known_opt"))
